@@ -194,6 +194,26 @@ def build(tier="quick", seed=0):
         pack.add(Obligation(name, lambda tier, name=name, codec=codec, ext=ext: prove_paths(name, th_concurrent(codec, ext), lambda p: (p.value == ([[0, 1, 2], [10, 11, 12]], []), f"two {codec} streams in progress at once: read back {p.value[0]}, shared codec state: {p.value[1]}"), lambda m_, p: {}, allow_raise=None),
                             replay=lambda w, codec=codec, ext=ext: {"call": "c11_concurrent", "args": {"ext": ext}}, functions=FU, mode="two streams of one codec open at the same time, interleaved"))
 
+    # ------------------------------------------------------------------ a '#' is a legal character of a file name
+    def th_hash_name():
+        fresh()
+        D = it.call(RD, ["c11/rec", [("varint", "n")]], {})
+        path = "/abs/evidence#1.records.gz"
+        w = it.call(base.g["RecordWriter"], [path], {})
+        it.call(it.getattr_(w, "write"), [it.call(D, [], {"n": 5})], {})
+        it.call(it.getattr_(w, "close"), [], {})
+        files = sorted(it.vfs)
+        first = it.vfs[path].content()[:1] if path in it.vfs else None
+        try:
+            back = [it.unbase(o.attrs["n"]) for o in it.iterate(it.call(base.g["RecordReader"], [path], {}))]
+        except PyRaise as e:
+            back = f"raised {e.cls_name}"
+        return files, first, back
+
+    pack.add(Obligation("C11.path[a '#' in the file name]", lambda tier: prove_paths("C11.path[a '#' in the file name]", th_hash_name,
+                        lambda p: (p.value[0] == ["/abs/evidence#1.records.gz"] and bool(p.value[1]) and isinstance(p.value[1][0], MagicSeg) and p.value[1][0].codec == "gzip" and p.value[2] == [5], f"files written {p.value[0]}, leading segment {p.value[1]!r}, read back {p.value[2]!r}")),
+                        replay=lambda w: {"call": "c11_hash_name", "args": {}}, functions=FU, mode="representative name"))
+
     # ------------------------------------------------------------------ adapter table for paths
     def th_adapter_table():
         out = {}
